@@ -13,6 +13,7 @@
 //!                        ApproxQuantiles(qs).finish, ApproxMedian.finish]]
 //!          state = [[[mean, weight]..], total_weight, min, max, compression] (verif_state hook).
 //!          "tdx" = the extreme-magnitude stream (only the property instance is judged).
+//!          "tdw" = add_weighted with weights < 1 (outside the property; only agreement is judged).
 //!   "mono": in = [prog, qs ascending]; out = ["ok", [quantiles(qs), ApproxQuantiles(qs).finish]]
 //!   "pipe": in = [variant, c, data, qs, parts, fanout]   (parts 0 = collect_seq; fanout 0 = None)
 //!          variant "glob"  from_vec(values).combine_globally(ApproxQuantiles)
@@ -140,7 +141,7 @@ fn stat_values(n: u64, a: u64, b: u64) -> Vec<f64> {
 
 fn run(kind: &str, input: &Value) -> Value {
     match kind {
-        "td" | "tdx" => {
+        "td" | "tdx" | "tdw" => {
             let d = eval(&input[0]);
             let qs = pfs(&input[1]);
             let xs = pfs(&input[2]);
@@ -588,6 +589,23 @@ fn generate(seed: u64, tier: Tier, em: &mut Emitter) {
         all.extend(&other);
         em.case("td", json!([prog, fjs(&qs_short()), fjs(&xs_for(&all))]), nfinite(&all) >= 2,
                 &["weighted", "mixed-compression"]);
+    }
+
+    // ---- 5b. fractional weights (k_size's .max(1.0) matters only here): agreement only
+    let reps = if thorough { 400 } else { 80 };
+    for _ in 0..reps {
+        let c = *rng.pick(&[1.0, 2.0, 5.0, 16.0, 32.0, 100.0]);
+        let n = rng.below(30) as usize;
+        let wpat = rng.below(9) as usize;
+        let vals = pattern(&mut rng, n, wpat);
+        let vws: Vec<Value> = vals
+            .iter()
+            .map(|&v| json!([fj(v), fj(*rng.pick(&[0.25, 0.5, 0.5, 1.0, 2.0, 0.125]))]))
+            .collect();
+        let base = json!(["addw", ["new", fj(c)], vws]);
+        let prog = if rng.chance(1, 2) { json!(["merge", ["new", fj(c)], base]) } else { base };
+        em.case("tdw", json!([prog, fjs(&qs_short()), fjs(&xs_for(&vals))]), nfinite(&vals) >= 2,
+                &["fractional-weights", "agreement-only"]);
     }
 
     // ---- 6. monotonicity in q (the open known finding lives here)
